@@ -9,7 +9,7 @@ Extraction "m.ml" xb_add xb_mul xb_div_eucl
   k_add k_sub k_neg k_mul k_power2Round k_scalePower2 k_decompose k_highBits k_lowBits
   k_makeHint k_useHint k_centeredAbs k_centeredMax
   ntt intt simpleBitPack bitPack simpleBitUnpack_chk bitUnpack hintBitPack hintBitUnpack
-  coeffFromHalfByte rejectNTTPoly rejectBoundedPoly sampleInBall
+  coeffFromHalfByte rejectNTTPoly rejectBoundedPoly sampleInBall expandMask
   MLDSA44 MLDSA65 MLDSA87 publicKeyLength secretKeyLength signatureLength
   keyGenInternal pkEncode skEncode pkDecode skDecode w1Encode
   signInternal verifyInternal sign verify tinkSign tinkVerify computePrehash signPrehash
